@@ -35,6 +35,11 @@ ENGINES += [
      "serves_properties": ["C06", "C07", "C14", "C18"],
      "kind_free_text": "TLA+ linker (layouts, components, slots) feeding machine E, and the loader state machine with nondeterministic file order (AllOrNothing, Deterministic model-checked); template trees are written to disk and loaded with NewTemplate after VerifReset"},
 ]
+ENGINES += [
+    {"name": "tla-api", "path": "spec/TwApi.tla, spec/MC_Api.tla, spec/MC_Reg.tla, harness/fam_api.go, harness/fam_reg.go",
+     "serves_properties": ["C15", "C16", "C17", "C20"],
+     "kind_free_text": "TLA+ machine A: package-level state (mode flag, sticky configuration, registry), operations split at shared accesses, goroutine program counters; TLC explores interleavings and histories; the harness replays schedules with blocking gate hooks, histories with state snapshots, and stress runs under the race detector"},
+]
 T_REPLAY = "explicit TLA+ specification checked by TLC; TLC-generated behaviours replayed into the real code"
 CLAIMED = {
     "C01": {"engine": "tla-expr", "technique": T_REPLAY,
@@ -53,6 +58,14 @@ CLAIMED = {
             "text": "TLC enumerates Go values by type-directed recursion (spec/MC_Data.tla) and every access path into the converted value; the harness builds each value with reflect (StructOf, typed slices, pointers), renders the path through EvaluateString and EnvFromMap, requires the model's printed form (or 'not reachable' / 'unsupported' errors) and that the caller's data is DeepEqual to a fresh copy afterwards."},
     "C14": {"engine": "tla-link", "technique": "explicit TLA+ loader machine model-checked for Deterministic; TLC-generated order-sensitive cases run repeatedly on the real code",
             "text": "The loader machine picks files in any order under the as-coded switch; TLC checks on the intended design that the outcome is a function of the tree (Deterministic) for every tree of the family and every order. TLC also enumerates the order-sensitive programs and trees, and the harness runs each N times in one process and in several fresh processes (Go randomises map order per iteration, which explores the model's choices): all results must be byte-identical."},
+    "C15": {"engine": "tla-api", "technique": "explicit TLA+ interleaving model checked by TLC; every TLC schedule replayed on real goroutines through gate hooks; race detector on model-driven stress runs",
+            "text": "TLC checks SoloEq (every call returns what it returns alone) and RenderFramesState over every interleaving of the shared-state accesses of 2-3 goroutines and every assignment of render operations; each maximal schedule is replayed on the real code with goroutines released at verifGate points in TLC's order and every result compared with the operation's solo result; the same operation multisets then run free under the race detector (zero reports required)."},
+    "C16": {"engine": "tla-api", "technique": T_REPLAY,
+            "text": "TLC enumerates every history up to the bound over the render operations on a fixed tree and checks SoloEq / RenderFramesState; the harness replays each history after VerifReset + reload: every result must equal the same operation issued first in a fresh state, and the package-state snapshot, the loaded programs (VerifPrograms) and the caller's data must be unchanged after every step."},
+    "C17": {"engine": "tla-api", "technique": T_REPLAY,
+            "text": "TLC checks the ResponseBody selection table on machine A for every configuration (debug, custom error page present / configured but missing / absent) and page kind; the harness performs each Response on an httptest recorder and classifies the body: the rendered page iff no error, exactly the selected error page otherwise, no part of the failed page, no message or path with debug off, both with debug on."},
+    "C20": {"engine": "tla-api", "technique": T_REPLAY,
+            "text": "The registry is a TLA+ state machine (first registration wins and stays, per-type independence, built-in shadows custom, callable before and after load); TLC checks the action properties and generates every history up to the bound for pairs of receiver types; the harness replays them with functions whose canned results identify the registration and compares the registry snapshot; a TLA+-generated conversion family checks the Go types and values received for every value kind, and results are compared with the same Go value passed as data."},
     "C18": {"engine": "tla-link", "technique": T_REPLAY,
             "text": "TLC enumerates trees over a file-name alphabet built to separate 'ends in the extension' from 'contains the extension' x directory spellings x extensions with the names the specification assigns, and every single-file fault of a valid page+layout+component tree (deleted, garbage, empty, dangling symlink, directory, truncation at every chunk boundary); the loader machine is model-checked for AllOrNothing. The harness loads each tree: registered names must equal the model's set, layouts and unknown names are not renderable, a fault gives (nil, error identifying the file), EvaluateFile equals EvaluateString."},
     "C09": {"engine": "tla-expr", "technique": T_REPLAY,
